@@ -497,7 +497,9 @@ impl Model {
                 refcodec::MI256 => a.len == 32,
                 t => t >= 0x8000 || matches!(t, 0x0001 | 0x0006 | 0x0009 | 0x000A | 0x0014 | 0x0015 | 0x0020),
             }));
-            let canonical = from == tx.dest && refcodec::method_of(resp_type) == tx.method && resp_fp == tx.req_fp && plain && match resp_algs {
+            // ... and nothing hidden behind its first integrity attribute
+            let no_hidden = resp_view.as_ref().map_or(false, |v| v.all.iter().enumerate().all(|(i, a)| !(a.ty == refcodec::MI || a.ty == refcodec::MI256) || v.exposed.contains(&i)));
+            let canonical = from == tx.dest && refcodec::method_of(resp_type) == tx.method && resp_fp == tx.req_fp && plain && no_hidden && match resp_algs {
                 Some(a) => a == tx.req_algs,
                 None => false,
             };
